@@ -25,10 +25,10 @@ theorem Spec.mem_liveRegs {sp : Spec} {r : Reg} :
   unfold Spec.liveRegs
   cases h : sp.fb <;> simp <;> grind
 
-theorem SInv.init (fb : Bool) : SInv (Spec.init fb) := by
+theorem SInv.init (fb : Start) : SInv (Spec.init fb) := by
   cases fb <;> constructor <;> simp [Spec.init, Spec.liveRegs]
 
-theorem LInv.init (fb : Bool) : LInv (Spec.init fb) [] := by
+theorem LInv.init (fb : Start) : LInv (Spec.init fb) [] := by
   cases fb <;> constructor <;> simp [Spec.init, Spec.liveRegs, Ordered]
 
 /-- lookup finds exactly the entries of a map without repeated keys -/
@@ -230,14 +230,14 @@ theorem SInv.reg_inj {sp : Spec} (hs : SInv sp) {i i' : Id} {r : Reg} (h1 : (i, 
   exact (Prod.mk.injEq .. ▸ this).1
 
 /-- constructor with the registration list spelled out -/
-theorem SInv.mk' {X : List (Id × Reg)} {fb : Option Reg} {dflt : Id} {next : Reg} {regd : List Reg}
+theorem SInv.mk' {X : List (Id × Reg)} {fb : Option Reg} {bi : Bool} {dflt : Id} {next : Reg} {regd : List Reg}
     (h1 : (X.map (·.1)).Nodup) (h2 : (X.map (·.2)).Nodup)
     (h3 : ∀ r, fb = some r → ∀ id, (id, r) ∉ X)
     (h4 : ∀ p, p ∈ X → p.2 ∈ regd) (h5 : ∀ r, fb = some r → r ∈ regd)
-    (h6 : ∀ r, r ∈ regd → r < next) : SInv ⟨X, fb, dflt, next, regd⟩ := by
+    (h6 : ∀ r, r ∈ regd → r < next) : SInv ⟨X, fb, bi, dflt, next, regd⟩ := by
   constructor
   · exact h1
-  · exact liveRegs_nodup_of (sp := ⟨X, fb, dflt, next, regd⟩) h2 h3
+  · exact liveRegs_nodup_of (sp := ⟨X, fb, bi, dflt, next, regd⟩) h2 h3
   · intro r hr
     rw [Spec.mem_liveRegs] at hr
     rcases hr with ⟨id, h⟩ | h
@@ -347,13 +347,19 @@ theorem lookup_live {sp : Spec} (hs : SInv sp) {id : Id} {r : Reg} (h : sp.looku
   rw [Spec.lookup_eq_some hs.keys] at h
   exact Spec.mem_liveRegs.mpr (Or.inl ⟨id, h⟩)
 
-theorem stepEmit_inv {sp sp' : Spec} {id : Id} {h : HRes} {out : Out} {L : List LogE}
-    (hst : sp.stepEmit id h out = some sp')
+theorem stepUnhandled_inv {sp sp' : Spec} {id : Id} {msg : Option (List Byte)} {out : Out} {L : List LogE}
+    (hst : sp.stepUnhandled id msg out = some sp')
     (hs : SInv sp) (hl : LInv sp L) : SInv sp' ∧ LInv sp' (L ++ out.log) := by
-  unfold Spec.stepEmit at hst
+  unfold Spec.stepUnhandled at hst
   split at hst
-  · rename_i r ht
-    exact stepDeliver_inv hst (target_live hs ht) hs hl
+  · dsimp only at hst
+    split at hst
+    · rename_i hc
+      simp only [Bool.and_eq_true, beq_iff_eq] at hc
+      cases hst
+      rw [hc.2, List.append_nil]
+      exact ⟨⟨hs.keys, hs.regs, hs.live_regd, hs.regd_lt⟩, LInv.same hl rfl rfl⟩
+    · cases hst
   · split at hst
     · rename_i hc
       simp only [Bool.and_eq_true, beq_iff_eq] at hc
@@ -362,8 +368,17 @@ theorem stepEmit_inv {sp sp' : Spec} {id : Id} {h : HRes} {out : Out} {L : List 
       exact ⟨hs, hl⟩
     · cases hst
 
-theorem stepHashId_inv {sp sp' : Spec} {cid : Option Id} {h : HRes} {out : Out} {L : List LogE}
-    (hst : sp.stepHashId cid h out = some sp')
+theorem stepEmit_inv {sp sp' : Spec} {id : Id} {msg : Option (List Byte)} {h : HRes} {out : Out} {L : List LogE}
+    (hst : sp.stepEmit id msg h out = some sp')
+    (hs : SInv sp) (hl : LInv sp L) : SInv sp' ∧ LInv sp' (L ++ out.log) := by
+  unfold Spec.stepEmit at hst
+  split at hst
+  · rename_i r ht
+    exact stepDeliver_inv hst (target_live hs ht) hs hl
+  · exact stepUnhandled_inv hst hs hl
+
+theorem stepHashId_inv {sp sp' : Spec} {msg : List Byte} {cid : Option Id} {h : HRes} {out : Out} {L : List LogE}
+    (hst : sp.stepHashId msg cid h out = some sp')
     (hs : SInv sp) (hl : LInv sp L) : sp' = sp ∧ LInv sp (L ++ out.log) := by
   unfold Spec.stepHashId at hst
   split at hst
@@ -394,12 +409,20 @@ theorem stepHashId_inv {sp sp' : Spec} {cid : Option Id} {h : HRes} {out : Out} 
           exact ⟨rfl, LInv.call hl hs (Spec.mem_liveRegs.mpr (Or.inr hfb)) rfl rfl⟩
         · cases hst
       · split at hst
-        · rename_i hc
-          simp only [Bool.and_eq_true, beq_iff_eq, decide_eq_true_eq] at hc
-          cases hst
-          rw [hc.2, List.append_nil]
-          exact ⟨rfl, hl⟩
-        · cases hst
+        · split at hst
+          · rename_i hc
+            simp only [Bool.and_eq_true, beq_iff_eq, decide_eq_true_eq] at hc
+            cases hst
+            rw [hc.2, List.append_nil]
+            exact ⟨rfl, hl⟩
+          · cases hst
+        · split at hst
+          · rename_i hc
+            simp only [Bool.and_eq_true, beq_iff_eq, decide_eq_true_eq] at hc
+            cases hst
+            rw [hc.2, List.append_nil]
+            exact ⟨rfl, hl⟩
+          · cases hst
 
 /-- one accepted step keeps the spec state and the log well-formed -/
 theorem step_inv {sp sp' : Spec} {op : Op} {out : Out} {L : List LogE} (hst : sp.step op out = some sp')
@@ -478,7 +501,9 @@ theorem step_inv {sp sp' : Spec} {op : Op} {out : Out} {L : List LogE} (hst : sp
         · split at hst
           · rename_i r hfb
             exact stepDeliver_inv hst (Spec.mem_liveRegs.mpr (Or.inr hfb)) hs hl
-          · cases hst
+          · split at hst
+            · exact stepUnhandled_inv hst hs hl
+            · cases hst
   | hash msg h =>
     simp only [Spec.step] at hst
     rw [List.findSome?_eq_some_iff] at hst
@@ -538,6 +563,71 @@ theorem step_inv {sp sp' : Spec} {op : Op} {out : Out} {L : List LogE} (hst : sp
         · intro r hr; exact hr
         · intro r hr; exact Or.inl hr
     · cases hst
+  | drop =>
+    simp only [Spec.step] at hst
+    split at hst
+    · rename_i hc
+      simp only [Bool.and_eq_true, sameSet_iff] at hc
+      cases hst
+      obtain ⟨_, hnd, hmem⟩ := hc
+      simp only [List.mem_map] at hmem
+      refine ⟨?_, ?_⟩
+      · apply SInv.mk' <;> grind
+      · apply LInv.retire hl hs hnd <;> simp only [Spec.mem_liveRegs] <;> grind
+    · cases hst
+  | tcopy r =>
+    simp only [Spec.step] at hst
+    split at hst
+    · rename_i hc
+      simp only [Bool.and_eq_true, beq_iff_eq] at hc
+      cases hst
+      rw [hc.1, List.append_nil]
+      exact ⟨hs, hl⟩
+    · cases hst
+  | setDefault id =>
+    simp only [Spec.step] at hst
+    split at hst
+    · split at hst
+      · rename_i hc
+        simp only [Bool.and_eq_true, beq_iff_eq] at hc
+        cases hst
+        rw [hc.2, List.append_nil]
+        exact ⟨⟨hs.keys, hs.regs, hs.live_regd, hs.regd_lt⟩, LInv.same hl rfl rfl⟩
+      · cases hst
+    · split at hst
+      · rename_i hc
+        simp only [Bool.and_eq_true, beq_iff_eq] at hc
+        cases hst
+        rw [hc.2, List.append_nil]
+        exact ⟨hs, hl⟩
+      · cases hst
+  | setError =>
+    simp only [Spec.step] at hst
+    cases hfb : sp.fb with
+    | none =>
+      rw [hfb] at hst
+      dsimp only at hst
+      split at hst
+      · rename_i hc
+        simp only [Bool.and_eq_true, beq_iff_eq] at hc
+        cases hst
+        refine ⟨?_, ?_⟩
+        · apply SInv.mk' <;> grind
+        · rw [hc.2]
+          apply LInv.retire hl hs (by simp) <;> simp only [Spec.mem_liveRegs] <;> grind
+      · cases hst
+    | some o =>
+      rw [hfb] at hst
+      dsimp only at hst
+      split at hst
+      · rename_i hc
+        simp only [Bool.and_eq_true, beq_iff_eq] at hc
+        cases hst
+        refine ⟨?_, ?_⟩
+        · apply SInv.mk' <;> grind
+        · rw [hc.2]
+          apply LInv.retire hl hs (by simp) <;> simp only [Spec.mem_liveRegs] <;> grind
+      · cases hst
 
 /-- log of a trace -/
 def logOf (tr : List (Op × Out)) : List LogE := (tr.map (·.2.log)).flatten
@@ -560,7 +650,8 @@ theorem run_inv {tr : List (Op × Out)} {sp sp' : Spec} {L : List LogE} (hrun : 
     · cases hrun
 
 /-- what the monitor demands of an emit outcome, read off its definition -/
-theorem stepEmit_log {sp sp' : Spec} {id : Id} {h : HRes} {out : Out} (hst : sp.stepEmit id h out = some sp') :
+theorem stepEmit_log {sp sp' : Spec} {id : Id} {msg : Option (List Byte)} {h : HRes} {out : Out}
+    (hst : sp.stepEmit id msg h out = some sp') :
     out.log = (match sp.target id with | some r => [.call r id] | none => []) := by
   unfold Spec.stepEmit at hst
   split at hst
@@ -573,14 +664,24 @@ theorem stepEmit_log {sp sp' : Spec} {id : Id} {h : HRes} {out : Out} (hst : sp.
       simp only [ht]; exact hc.2
     · cases hst
   · rename_i ht
+    simp only [ht]
+    unfold Spec.stepUnhandled at hst
     split at hst
-    · rename_i hc
-      simp only [Bool.and_eq_true, beq_iff_eq] at hc
-      simp only [ht]; exact hc.2
-    · cases hst
+    · dsimp only at hst
+      split at hst
+      · rename_i hc
+        simp only [Bool.and_eq_true, beq_iff_eq] at hc
+        exact hc.2
+      · cases hst
+    · split at hst
+      · rename_i hc
+        simp only [Bool.and_eq_true, beq_iff_eq] at hc
+        exact hc.2
+      · cases hst
 
 /-- what the monitor demands of a hash-dispatch outcome -/
-theorem stepHashId_log {sp sp' : Spec} {cid : Option Id} {h : HRes} {out : Out} (hst : sp.stepHashId cid h out = some sp') :
+theorem stepHashId_log {sp sp' : Spec} {msg : List Byte} {cid : Option Id} {h : HRes} {out : Out}
+    (hst : sp.stepHashId msg cid h out = some sp') :
     out.log = sp.hashLog cid := by
   cases cid with
   | none =>
@@ -610,10 +711,17 @@ theorem stepHashId_log {sp sp' : Spec} {cid : Option Id} {h : HRes} {out : Out} 
           first | (simp only [hfb]; exact hc.1) | exact hc.1
         · cases hst
       · rename_i hfb
+        first | simp only [hfb] | skip
         split at hst
-        · rename_i hc
-          simp only [Bool.and_eq_true, beq_iff_eq] at hc
-          first | (simp only [hfb]; exact hc.2) | exact hc.2
-        · cases hst
+        · split at hst
+          · rename_i hc
+            simp only [Bool.and_eq_true, beq_iff_eq] at hc
+            exact hc.2
+          · cases hst
+        · split at hst
+          · rename_i hc
+            simp only [Bool.and_eq_true, beq_iff_eq] at hc
+            exact hc.2
+          · cases hst
 
 end Mpt.Dispatch
